@@ -6,7 +6,8 @@ EXPL = ('(R-SCHEME) every path segment (entry -> loop head, one loop iteration, 
         'marked omitFromKeys, nothing is added to a0/product and no delegation component b[j] is emitted - a hidden slot '
         'contributes neither to the key nor a way to fill it later - while every visible matched attribute does enter the '
         'key; (R-TOTAL) precompute folds h[idx]^id for every listed attribute (no entry skipped, no early exit), so a '
-        'ciphertext binds every attribute of its list.')
+        'ciphertext binds every attribute of its list.'
+        ' (R-INBOUNDS) independently of the loop structure, a must-dataflow over the CFG shows that every element of an input list (attrs.attrs, sk.b, params.h) selected by a cursor is touched only where every path has tested that cursor against the list count since it last moved.')
 
 
 def run(ctx):
